@@ -404,3 +404,43 @@ fn arc_builder_finalize_contract() {
         }
     }
 }
+
+
+// ------------------------------------------------------------------ ownership conservation (C04), unit K-LEAK
+
+#[kani::proof]
+#[kani::unwind(34)]
+fn arc_put_leakcheck() {
+    use crate::verif_hooks::gen::*;
+    let size: usize = kani::any();
+    let p: usize = kani::any();
+    kani::assume(size >= 1 && size <= N && p <= size);
+    let t1 = any_tracked_abs(N, 1);
+    let t2 = any_tracked_abs(N, 1);
+    let b1 = any_tracked_abs(N, 1);
+    let b2 = any_tracked_abs(N, 1);
+    kani::assume(t1.cap == size && t2.cap == size && b1.cap == size && b2.cap == size && t1.n + t2.n <= size);
+    kani::assume(partitioned(&[&t1, &t2, &b1, &b2]) && values_distinct(&[&t1, &t2, &b1, &b2]));
+    reset_drops();
+    let mut c = AdaptiveCache::verif_from_parts(size, p, build_tracked(&t1, PoisonHasher), build_tracked(&b1, PoisonHasher), build_tracked(&t2, PoisonHasher), build_tracked(&b2, PoisonHasher));
+    let k: u8 = kani::any();
+    let v: u8 = kani::any();
+    kani::assume(k < 16 && v >= 16 && v < 32);
+    let before = ids_of(&[&t1, &t2, &b1, &b2]);
+    kani::assume(before & (1 << v) == 0);
+    let hit = holders(&[&t1, &t2, &b1, &b2], k) > 0;
+    kani::cover!(!hit && t1.n + t2.n == size && b2.n == size && t2.n > 0, "arc tracked put: new key while the frequent ghost list is full");
+    kani::cover!(b1.has(k) && t1.n + t2.n == size, "arc tracked put: ghost hit in a full cache");
+    let created = before | (1 << v) | if hit { 0 } else { 1 << k };
+    let r = c.put(Tk(k), Tv(v));
+    drop(r);
+    if hit {
+        assert!(drops(k) == 1, "[C04.once] on an update or revival the surplus key object is dropped exactly once");
+        set_drops(k, 0);
+    }
+    let (post, wf) = c.verif_check();
+    assert!(wf, "[C03.wf] lists well formed after put with heap-tracked payloads");
+    assert!(conserved(created, ids_of(&[&post.recent, &post.frequent, &post.recent_evict, &post.frequent_evict])), "[C04.once] after put every key and value is retained (resident or ghost), or was handed back, or was dropped exactly once (trimmed ghosts included)");
+    drop(c);
+    assert!(conserved(created, 0), "[C04.drop] dropping the cache releases every retained key and value exactly once");
+}
